@@ -42,9 +42,27 @@ func (u *Unit) staticCallee(call *ast.CallExpr) *types.Func {
 
 func (u *Unit) evalCall(call *ast.CallExpr, st *State) []Val {
 	if cs, ok := u.atAsserts[call]; ok && !u.inSpec {
+		// the call's arguments are visible to the assertion as arg0, arg1, ...
+		argBind := map[string]Val{}
+		savedNS := u.noSafety
+		u.noSafety = true
+		for i, a := range call.Args {
+			if tv, ok := u.info.Types[a]; ok && tv.Type != nil {
+				if _, isTuple := tv.Type.(*types.Tuple); isTuple {
+					continue
+				}
+			}
+			tmp := st.clone()
+			av := u.evalExpr(a, tmp)
+			if av.S == "nil" {
+				continue
+			}
+			argBind[fmt.Sprintf("arg%d", i)] = av
+		}
+		u.noSafety = savedNS
 		for _, c := range cs {
-			g := u.evalClause(c, st, u.entry, nil, nil)
-			u.oblige(st, "at#"+c.At+"#"+fmt.Sprint(c.Line), "assert", g, u.clauseProps(c), c, "in-body assertion before call "+c.At+": "+c.Text, call)
+			g := u.evalClause(c, st, u.entry, argBind, nil)
+			u.oblige(st, "at#"+c.At+"#"+fmt.Sprint(u.assertOrdinal(c)), "assert", g, u.clauseProps(c), c, "in-body assertion before call "+c.At+": "+c.Text, call)
 			st.assume(g)
 		}
 	}
@@ -703,11 +721,18 @@ func (u *Unit) callByContract(call *ast.CallExpr, f *types.Func, con *Contract, 
 	if !pure && !u.inSpec {
 		pre = st.clone()
 		ms := u.prog.modSetOf(f)
-		for k := range ms {
+		u.frameAlloc = pre.alloc
+		for _, k := range sortedKeys(ms) {
 			if strings.HasPrefix(k, "!") {
 				continue
 			}
 			u.havocHeapFramed(st, pre, k, con, rv)
+		}
+		u.frameAlloc = ""
+		// a callee that initialises immutable fields of an object passed to it (assigns p.*) may only be
+		// handed an object under construction
+		if con != nil && con.HasAssigns {
+			u.checkImmutableArgs(st, pre, con, rv, ms, call)
 		}
 		al := u.reg.fresh("alloc", "Int")
 		st.assume("(>= " + al + " " + st.alloc + ")")
@@ -744,7 +769,29 @@ func (u *Unit) callByContract(call *ast.CallExpr, f *types.Func, con *Contract, 
 		u.sliceFacts(st, v)
 		res = append(res, v)
 	}
+	if !u.inSpec && !pure {
+		for _, v := range res {
+			if v.GT == nil || v.S != "Int" {
+				continue
+			}
+			if pt, ok := v.GT.Underlying().(*types.Pointer); ok {
+				u.assumeTypeInv(st, v, pt.Elem())
+			}
+		}
+	}
 	rv.results = res
+	if !u.inSpec {
+		if con != nil && con.ErrIgnorable != nil && len(res) > 0 {
+			// the contract says when the caller may drop the error (e.g. mapField's skip result)
+			ign := u.evalClause(con.ErrIgnorable, st, pre, nil, rv)
+			last := res[len(res)-1]
+			if isErrorLike(sig.Results().At(len(res)-1).Type()) && last.S == "Int" {
+				st.errs = append(st.errs, errRec{term: ite(ign, "0", last.T), from: key})
+			}
+		} else {
+			u.recordErrs(st, res, sig, key)
+		}
+	}
 	if con != nil && !con.Opaque {
 		for _, c := range con.Ensures {
 			st.assume(u.evalClause(c, st, pre, nil, rv))
@@ -834,6 +881,9 @@ func (u *Unit) callFuncValue(call *ast.CallExpr, fv Val, name string, sig *types
 		res = append(res, v)
 	}
 	u.unmodelledNote("call through function value " + name + " treated as an uninterpreted function without side effects")
+	if !u.inSpec {
+		u.recordErrs(st, res, sig, "func value "+name)
+	}
 	return res
 }
 
@@ -903,4 +953,58 @@ func (u *Unit) pureDefinedResult(con *Contract, i, n int, rv *roleVals, st *Stat
 		return v, true
 	}
 	return Val{}, false
+}
+
+// assertOrdinal: position of an in-body assertion among the assertions attached to the same site
+func (u *Unit) assertOrdinal(c *Clause) int {
+	n := 0
+	for _, o := range u.con.Asserts {
+		if o.At == c.At {
+			n++
+			if o == c {
+				return n
+			}
+		}
+	}
+	return n
+}
+
+// recordErrs remembers the error-typed results of a call (see `propagates`)
+func (u *Unit) recordErrs(st *State, res []Val, sig *types.Signature, from string) {
+	n := sig.Results().Len()
+	if n == 0 || len(res) != n {
+		return
+	}
+	last := sig.Results().At(n - 1).Type()
+	if isErrorLike(last) && res[n-1].S == "Int" {
+		st.errs = append(st.errs, errRec{term: res[n-1].T, from: from})
+	}
+}
+
+func (u *Unit) checkImmutableArgs(st, pre *State, con *Contract, rv *roleVals, ms map[string]bool, call *ast.CallExpr) {
+	for _, item := range con.Assigns {
+		if item == "fresh" || strings.HasPrefix(item, "map(") {
+			continue
+		}
+		obj, fields, _ := u.parseAssignItem(con, item, rv, pre)
+		touches := false
+		for k := range u.prog.CS.Immutable {
+			if ms[k] && (fields == nil || fields[k]) {
+				touches = true
+			}
+		}
+		if !touches || u.entry == nil {
+			continue
+		}
+		alts := []string{"(> " + obj + " " + u.entry.alloc + ")"}
+		if u.con != nil && u.con.HasAssigns && len(u.inlineStack) == 0 {
+			for k := range u.prog.CS.Immutable {
+				if ms[k] && (fields == nil || fields[k]) {
+					alts = append(alts, u.frameAllows(st, u.con, u.entryBindings(nil), u.entry, k, obj))
+					break
+				}
+			}
+		}
+		u.oblige(pre, fmt.Sprintf("immutable-arg#%d", u.frameSite(call, "immarg:"+item)), "frame", or(alts...), []string{"C03"}, nil, "object whose immutable fields the callee initialises ("+item+") is under construction", call)
+	}
 }
